@@ -3,7 +3,7 @@ foreign tpc_abort / undo / pack driven directly on FileStorage(blob_dir) and
 BlobStorage(blob_dir, MappingStorage()).  Generator + runner + direct oracle (a ledger)."""
 import os
 
-from c13_lib import Env, p64, u64, errname
+from c13_lib import Env, p64, u64, errname, copy_to_fresh
 
 Z64 = b'\0' * 8
 
@@ -66,7 +66,7 @@ def gen_case(rng, flavor=None, size=None):
             ops.append(['pack', rng.randrange(0, 6), rng.choice([0, 1, 1])])
         else:
             ops.append(['fabort'])
-    return dict(level='st', flavor=flavor, keep_old=rng.random() < 0.4, ops=ops)
+    return dict(level='st', flavor=flavor, keep_old=rng.random() < 0.4, copy=rng.random() < 0.25, ops=ops)
 
 
 def gen_data(rng):
@@ -128,7 +128,7 @@ def run_case(case, root, ck=None):
         stats[k] = stats.get(k, 0) + 1
 
     def bad(sig, what):
-        if len(problems) < 5:
+        if len(problems) < 12 and sum(1 for s0, _ in problems if s0 == sig) < 2:
             problems.append((sig, what))
 
     nontrivial = False
@@ -171,12 +171,15 @@ def run_case(case, root, ck=None):
                 if stray:
                     bad('C13:stray-file', 'unexpected files in the blob directory after %s: %r' % (after, stray))
                 tid_now = u64(env.base._tid) if txn is not None else None
-                for k, b in L.files.items():
+                for k, b in list(L.files.items()):
                     if k not in files:
                         if after == 'pack':
                             bad('C13:nonundo-pack-removes-kept-blob' if flavor == 'wrap' else
                                 'C13:pack-removes-kept-blob',
                                 'pack removed the blob file of revision %r whose record is kept' % (k,))
+                            if flavor == 'wrap':
+                                del L.files[k]         # open finding: report once, no cascade
+                                L.gone.add(k)
                         elif foreign_seen:
                             bad('C13:foreign-abort-removes-blob', 'blob file %r missing after %s' % (k, after))
                         else:
@@ -371,7 +374,15 @@ def run_case(case, root, ck=None):
                 S.tpc_abort(txn)
                 txn, pending = None, None
                 check('abort')
+            extra = ([], [])
+            if case.get('copy'):
+                cl, cr, cp = copy_to_fresh(env, root, dict(L.files))
+                extra = (cl, cr)
+                for sg, w in cp:
+                    bad(sg, w)
+                cnt('copy')
         finally:
             env.close()
-    return dict(lines=['reset ' + flavor] + env.lines, real=['ok'] + env.real, problems=problems,
+    return dict(lines=['reset ' + flavor] + env.lines + extra[0], real=['ok'] + env.real + extra[1],
+                problems=problems,
                 nontrivial=nontrivial, stats=stats)
